@@ -24,7 +24,7 @@ def asan_tools():
 def mkname(n, suffix, salt):
     body = n - (6 if suffix else 0)
     if body < 0:
-        return ".ascon"[:n] if suffix else "n" * n
+        return "n" * n
     s = ("f%d_" % salt + "abcdefghij" * (body // 10 + 1))[:body]
     return s + (".ascon" if suffix else "")
 
